@@ -309,7 +309,10 @@ const PLACEMENTS: [&str; 5] = [
 
 pub fn check_c01(ctx: &Ctx) -> i32 {
     let report = Report::new("C01");
-    let cfg = GenCfg::default();
+    // refused requests (a rename onto a taken name, writes beyond the end, ...) are part of the
+    // histories: whatever a refusal leaves behind must not show in any region's name, length or
+    // bytes later on, in particular not after a reopen
+    let cfg = GenCfg { allow_refusals: true, ..GenCfg::default() };
     let c = campaign(ctx, &report, &cfg, ctx.secs(25.0, 300.0), "C01", 1);
     for p in PLACEMENTS {
         if c.stats.get(p) == 0 {
